@@ -8,3 +8,5 @@ import "github.com/google/gce-tcb-verifier/verifyield"
 const instrumented = true
 
 func setYieldHook(f func(string)) { verifyield.Hook = f }
+
+func setBlockedHook(f func(string)) { verifyield.BlockedHook = f }
